@@ -1135,6 +1135,11 @@ func (c *Ctx) logCall(fr *Frame, st *State, reach string, id int, cc *ssa.CallCo
 		c.setArr(st, arr, "Int", fmt.Sprintf("(store %s %s %s)", a, n, val))
 	}
 	put("TR_fn", smtInt(int64(id)))
+	if cc.StaticCallee() == nil && !cc.IsInvoke() {
+		if fv := c.operand(fr, cc.Value, st); fv.T != "" || fv.Fn != nil {
+			put("TR_callee", c.term(fv))
+		}
+	}
 	k := 0
 	loggedSlice, loggedSlice2 := false, false
 	for ai, a := range cc.Args {
